@@ -31,7 +31,7 @@ Peer(c) == IF c = "a" THEN "b" ELSE "a"
 
 VARIABLES K, R, J, pat, post, \* the case
           bound,            \* [Ch -> key the channel is bound to]: set by the first ready session, NEVER reset
-          phase,            \* "traffic" | "silent" | "stranger" | "end"
+          phase,            \* "traffic" | "silent" | "waiting" | "end"
           strangerIn,       \* a handshake with a party holding another (acceptable) key completed
           t,
           est,              \* a current session exists
@@ -77,7 +77,7 @@ Step ==
 \* after the traffic: nothing is sent or received for longer than the reject interval - every session of both
 \* endpoints expires (expireSessions drops previous, current and prospective alike); the binding stays
 Silence ==
-    /\ t = Horizon /\ phase = "traffic" /\ post \in {"stranger", "resume"}
+    /\ t = Horizon /\ phase = "traffic" /\ post \in {"stranger", "resume", "pending"}
     /\ phase' = "silent" /\ t' = t + J + K + 1 /\ est' = FALSE
     /\ UNCHANGED <<K, R, J, pat, post, bound, strangerIn, created, initSide, lastRecv, hellos, failed>>
 \* then a party with ANOTHER key, which AcceptKey would accept, takes the peer's place and both sides try to
@@ -96,7 +96,20 @@ Resume ==
     /\ Handshake("a")
     /\ UNCHANGED <<K, R, J, pat, post, strangerIn, t, failed>>
 
-Spec == Init /\ [][Step \/ Silence \/ Stranger \/ Resume]_vars
+\* or a Send is ENTERED while the outage still lasts (no session left: it initiates and waits), the outage goes on
+\* for more than two reject intervals (the prospective session expires under the waiting Send, more than once), then
+\* the network heals: that very Send completes after a handshake - nobody has to call Send again
+PendingOutage ==
+    /\ phase = "silent" /\ post = "pending"
+    /\ phase' = "waiting" /\ t' = t + 2 * J + 2
+    /\ UNCHANGED <<K, R, J, pat, post, bound, strangerIn, est, created, initSide, lastRecv, hellos, failed>>
+Heal ==
+    /\ phase = "waiting"
+    /\ phase' = "end"
+    /\ Handshake("a")
+    /\ UNCHANGED <<K, R, J, pat, post, strangerIn, t, failed>>
+
+Spec == Init /\ [][Step \/ Silence \/ Stranger \/ Resume \/ PendingOutage \/ Heal]_vars
 \* C05: the key a channel talks to never changes, however long it was silent
 ContinuityT == ~strangerIn /\ \A c \in Ch : bound[c] \in {"none", KeyOf(Peer(c))}
 
